@@ -45,7 +45,7 @@ RULE = ("case = (state kind pos/cplx/dens, n<=4 (quick: n = 1,2,3 with every reg
         "ordered pairs) with A as a list, one Eulerian batch of length 4^n whose cyclic neighbours cover every ordered pair once, and "
         "random batches (size 1..9, repeated rows; contiguous / strided-view / transposed memory layout) and Eulerian batches with A in every "
         "accepted form: python int, numpy integer scalars, 0-d ndarray / tensor (singletons), list, tuple, 1-d int64/int32 ndarray / tensor, "
-        "lists of numpy ints / 0-d tensors, range (arithmetic progressions), boolean masks; slices are handed over too but are NOT among the forms the "
+        "lists of numpy ints / 0-d tensors, range (arithmetic progressions), boolean masks; slices, tuples, ranges and lists of 0-d tensors are handed over too but are NOT among the forms the "
         "property lists (int/list/array/tensor): informational counters only, no verdict; call histories on one SWAP / state / "
         "tensor object; plus a malformed "
         "stream (negative, repeated, out-of-range indices: not subsets of the sites, outside the quantifier - applied, outcome counted, NO verdict of any level); "
@@ -76,7 +76,14 @@ MASK_FORMS = ("mask_list", "mask_array", "mask_tensor")
 # another region for them is a regression: seeded M3_C09_2, M4_C09_1).  A Python `slice` happens to work with `s[:, A]` of the present code but
 # is not a documented type: a rewrite that normalises the region through `operator.index` raises TypeError for it, loudly, and keeps the
 # property.  The slice form is still handed over (an outcome that changes is counted) but carries NO verdict of any level.
-INFO_FORMS = ("slice",)
+# Hardening round (benign B3_C09_1): a TUPLE and a `range` are not among the listed / documented types either ("int or list or np.array or
+# torch.Tensor"): they work only because `s[:, A]` of the present code treats a tuple INSIDE an index tuple as a sequence.  A rewrite that
+# builds a site mask (`mask[A] = True`) keeps every listed form and reads a bare tuple as a multi-dimensional index (IndexError, or - for the
+# empty tuple - "all sites"): the property as stated still holds.  Same treatment as the slice: handed over, counted, no verdict.
+# Likewise a LIST WHOSE ELEMENTS ARE 0-d TENSORS (list_t0, list_t0_32, list_mixed): "list" in the property / docstring is a list of site numbers;
+# torch converts a list of 0-d tensors only on the `s[:, A]` path (the same mask rewrite gets IndexError for it).  Lists of Python / numpy
+# integers stay at property level.
+INFO_FORMS = ("slice", "tuple", "tuple_np", "tuple_t0", "range", "list_t0", "list_t0_32", "list_mixed")
 
 
 def slice_for(A, n, rng):
